@@ -27,8 +27,8 @@ def cases(rng, quick):
         for v in range(6):
             out.append({"entry": e, "malformed": "invalidJson", "variant": v, "cfg": [{"args": "plain", "env": "absent", "timeout": "absent", "cmd": "absolute"}]})
         for m in ("missingFile", "invalidJson", "unknownServer"):
-            for n in (1, 2):
-                out.append({"entry": e, "malformed": m, "cfg": [{"args": rng.choice(ARGC), "env": rng.choice(ENVC), "timeout": rng.choice(TOC), "cmd": rng.choice(CMDC)} for _ in range(n)]})
+            for n in (1, 2, 3):
+                out.append({"entry": e, "malformed": m, "variant": n + len(out), "cfg": [{"args": rng.choice(ARGC), "env": rng.choice(ENVC), "timeout": rng.choice(TOC), "cmd": rng.choice(CMDC)} for _ in range(n)]})
     # 2..4 servers
     for _ in range(25 if quick else 300):
         n = rng.randrange(2, 5)
